@@ -63,3 +63,8 @@ def install_shared(E):
         runtime_lib.install_runtime_types2(E)
     except ImportError:
         pass
+    import sys
+
+    for name, mod in list(sys.modules.items()):
+        if name.startswith("contracts.") and mod is not None and name != "contracts.common" and hasattr(mod, "install"):
+            mod.install(E)
